@@ -1020,6 +1020,10 @@ def do_reg(pid, flags, sup, skip, ign, tname):
 
 def main():
     load_spec(sys.argv[2])
+    if len(sys.argv) > 3 and sys.argv[3] == '--warm':
+        # std schema + skeleton pickles are built once here instead of once per worker
+        print('warm')
+        return
     if len(sys.argv) > 3 and sys.argv[3] == '--sql':
         r = do_query(sys.argv[4], sys.argv[5].replace('-', ''), sys.argv[6], want_sql=True)
         print(r.pop('sql', ''))
